@@ -115,7 +115,9 @@ Proof.
   unfold positions; destruct ix as [i|x y s|m|idx].
   - destruct (norm_int n i) as [j|]; [|discriminate].
     intros E; inversion E; now exists j.
-  - destruct ((match s with Some v => v | None => 1 end) <=? 0); discriminate.
+  - destruct ((match s with Some v => v | None => 1 end) =? 0);
+      [discriminate|].
+    destruct (0 <? (match s with Some v => v | None => 1 end)); discriminate.
   - destruct (zlen m =? n); discriminate.
   - destruct (norm_all n idx); discriminate.
 Qed.
@@ -147,9 +149,10 @@ Lemma np_index_one_is_int {A} (l : list A) ix a :
 Proof.
   unfold np_index, positions. destruct ix as [i|x y s|m|idx].
   - intros _; now exists i.
-  - destruct ((match s with Some v => v | None => 1 end) <=? 0);
+  - destruct ((match s with Some v => v | None => 1 end) =? 0);
       [discriminate|].
-    match goal with |- context [gather l ?z] => destruct (gather l z) end;
+    destruct (0 <? (match s with Some v => v | None => 1 end));
+      match goal with |- context [gather l ?z] => destruct (gather l z) end;
       discriminate.
   - destruct (zlen m =? zlen l); [|discriminate].
     destruct (gather l (where_ m)); discriminate.
@@ -919,15 +922,21 @@ Proof.
   - destruct (IH Hin) as [x0 [H1 H2]]. exists x0; auto.
 Qed.
 
+Lemma fmask_gather {A} (l : list A) filt m d :
+  gather l m = Some d -> gather l (fmask filt m) = Some (fmask filt d).
+Proof.
+  destruct filt as [f|]; simpl; [apply mask_gather|auto].
+Qed.
+
 Section ExportSound.
   Variable truth : Z -> list Z.
   Variable omap : nat -> list Z.
 
-  (* basins refer to files of the store (C14 covers cycles) *)
+  (* basins refer to files created earlier: acyclic (C14 covers cycles) *)
   Definition scoped (st : store) : Prop :=
     forall fid fl, get_file st fid = Some fl ->
       forall b, In b (f_basins fl) -> b_internal b = false ->
-                (b_target b < length st)%nat.
+                (b_target b < fid)%nat.
 
   Definition omap_ext (n : nat) (new : list Z) (j : nat) : list Z :=
     if Nat.eqb j n then new else omap j.
@@ -941,6 +950,152 @@ Section ExportSound.
         view_through (omap (Z.to_nat t)) m = Some data
     end.
 
+  Lemma get_file_app_old (st : store) x fid :
+    (fid < length st)%nat -> get_file (st ++ [x]) fid = get_file st fid.
+  Proof. intros H; unfold get_file. now rewrite nth_error_app1. Qed.
+
+  Lemma get_file_bound (st : store) fid fl :
+    get_file st fid = Some fl -> (fid < length st)%nat.
+  Proof.
+    unfold get_file; intros H.
+    destruct (nth_error st fid) eqn:E; [|discriminate].
+    apply nth_error_Some. congruence.
+  Qed.
+
+  Lemma get_file_snoc_cases (st : store) fl' fid fl :
+    get_file (st ++ [Some fl']) fid = Some fl ->
+    (fid < length st)%nat /\ get_file st fid = Some fl \/
+    fid = length st /\ fl = fl'.
+  Proof.
+    intros Hg. destruct (Nat.lt_ge_cases fid (length st)) as [Hlt|Hge].
+    - left. rewrite get_file_app_old in Hg by assumption. auto.
+    - right. pose proof (get_file_bound _ _ _ Hg) as Hb.
+      rewrite app_length in Hb; simpl in Hb.
+      assert (fid = length st) by lia. subst fid. split; [reflexivity|].
+      unfold get_file in Hg.
+      rewrite nth_error_app2, Nat.sub_diag in Hg by lia.
+      simpl in Hg. congruence.
+  Qed.
+
+  (* appending a consistent file whose basins refer to earlier files keeps
+     the store consistent and acyclic *)
+  Lemma store_sound_snoc st fl' new :
+    store_sound truth omap st ->
+    scoped st ->
+    file_sound truth (omap_ext (length st) new) (st ++ [Some fl'])
+               (length st) fl' ->
+    (forall b, In b (f_basins fl') -> b_internal b = false ->
+               (b_target b < length st)%nat) ->
+    store_sound truth (omap_ext (length st) new) (st ++ [Some fl']) /\
+    scoped (st ++ [Some fl']).
+  Proof.
+    intros Hst Hsc Hnew Htg. split.
+    - intros fid fl Hg.
+      destruct (get_file_snoc_cases st fl' fid fl Hg) as [[Hlt Hold]|[-> ->]].
+      + destruct (Hst fid fl Hold) as (HI & HB & HN).
+        assert (Eo : omap_ext (length st) new fid = omap fid).
+        { unfold omap_ext.
+          replace (Nat.eqb fid (length st)) with false
+            by (symmetry; apply Nat.eqb_neq; lia). reflexivity. }
+        unfold file_sound. rewrite Eo. repeat split.
+        * exact HI.
+        * intros b Hb Hi. specialize (HB b Hb Hi).
+          pose proof (Hsc fid fl Hold b Hb Hi) as Ht.
+          unfold omap_ext.
+          replace (Nat.eqb (b_target b) (length st)) with false
+            by (symmetry; apply Nat.eqb_neq; lia). exact HB.
+        * exact HN.
+      + exact Hnew.
+    - intros fid fl Hg b Hb Hi.
+      destruct (get_file_snoc_cases st fl' fid fl Hg) as [[Hlt Hold]|[-> ->]].
+      + exact (Hsc fid fl Hold b Hb Hi).
+      + exact (Htg b Hb Hi).
+  Qed.
+
+  Lemma store_sound_nil : store_sound truth omap [] /\ scoped [].
+  Proof.
+    split; intros fid fl H; unfold get_file in H;
+      destruct fid; simpl in H; discriminate.
+  Qed.
+
+  (* ---------------- base case: hand-written files ------------------- *)
+  (* a store_basin request that is correct for a file standing for the
+     origin events [new] *)
+  Definition request_ok (st : store) (new : list Z) (sb : sbasin) : Prop :=
+    match sb with
+    | SBFile t m nm _ =>
+        name_ok sb /\ (Z.to_nat t < length st)%nat /\
+        view_through (omap (Z.to_nat t)) m = Some new
+    | SBInternal data m =>
+        exists rows, gather rows m = Some new /\
+                     forall f d, assoc f data = Some d ->
+                                 gather (truth f) rows = Some d
+    end.
+
+  Lemma request_name_ok st new sb : request_ok st new sb -> name_ok sb.
+  Proof. destruct sb; simpl; [intros; exact I|intros [H _]; exact H]. Qed.
+
+  (* A file written with RTDCWriter (stored features taken from the origin
+     at the events [new], any sequence of store_basin calls with correct
+     maps: "same", mapped subsets / supersets / permutations, internal
+     basins) is consistent. *)
+  Lemma write_file_sound st n innate sbs fl' new :
+    (forall f d, assoc f innate = Some d ->
+                 gather (truth f) new = Some d) ->
+    Forall (request_ok st new) sbs ->
+    store_basins {| f_n := n; f_innate := innate; f_slots := empty_slots;
+                    f_basins := [] |} sbs = Some fl' ->
+    file_sound truth (omap_ext (length st) new) (st ++ [Some fl'])
+               (length st) fl' /\
+    (forall b, In b (f_basins fl') -> b_internal b = false ->
+               (b_target b < length st)%nat).
+  Proof.
+    intros Hinn Hreq H.
+    assert (Hnames : Forall name_ok sbs).
+    { apply Forall_forall. intros sb Hs. rewrite Forall_forall in Hreq.
+      exact (request_name_ok st new sb (Hreq sb Hs)). }
+    assert (Hl0 : length (f_slots {| f_n := n; f_innate := innate;
+                                     f_slots := empty_slots;
+                                     f_basins := [] |}) = 10%nat)
+      by reflexivity.
+    destruct (store_basins_written sbs _ fl' Hl0 Hnames H)
+      as (Hfi & _ & _ & _ & bs & Hbs & HF2).
+    simpl in Hfi, Hbs. rewrite Forall_forall in Hreq.
+    assert (Hown : omap_ext (length st) new (length st) = new)
+      by (unfold omap_ext; now rewrite Nat.eqb_refl).
+    split; [unfold file_sound; rewrite Hown; repeat split|].
+    - intros f d Ha. rewrite Hfi in Ha. now apply Hinn.
+    - intros b Hb Hi. rewrite Hbs in Hb.
+      destruct (Forall2_In_r _ _ _ _ HF2 Hb) as [sb [Hsb [Hh Hk]]].
+      specialize (Hreq sb Hsb).
+      destruct sb as [data m|t m nm fs]; simpl in Hk;
+        [destruct Hk; congruence|].
+      destruct Hk as [_ Htg]. destruct Hreq as (_ & Ht & Hv).
+      assert (Eo : omap_ext (length st) new (b_target b)
+                   = omap (Z.to_nat t)).
+      { unfold omap_ext. rewrite Htg.
+        replace (Nat.eqb (Z.to_nat t) (length st)) with false
+          by (symmetry; apply Nat.eqb_neq; lia). reflexivity. }
+      rewrite Eo. simpl in Hh, Hv. destruct m as [mm|].
+      + destruct Hh as [k [Hk Hs]]. rewrite Hk. exists mm; auto.
+      + rewrite Hh. inversion Hv; reflexivity.
+    - intros b Hb Hi. rewrite Hbs in Hb.
+      destruct (Forall2_In_r _ _ _ _ HF2 Hb) as [sb [Hsb [Hh Hk]]].
+      specialize (Hreq sb Hsb).
+      destruct sb as [data m|t m nm fs]; simpl in Hk;
+        [|destruct Hk; congruence].
+      destruct Hk as [_ Hint]. destruct Hreq as [rows [Hr Hd]].
+      simpl in Hh. destruct Hh as [k [Hk Hs]].
+      exists k, m, rows. rewrite Hint. auto.
+    - intros b Hb Hi. rewrite Hbs in Hb.
+      destruct (Forall2_In_r _ _ _ _ HF2 Hb) as [sb [Hsb [Hh Hk]]].
+      specialize (Hreq sb Hsb).
+      destruct sb as [data m|t m nm fs]; simpl in Hk;
+        [destruct Hk; congruence|].
+      destruct Hk as [_ ->]. destruct Hreq as (_ & Ht & _). exact Ht.
+  Qed.
+
+  (* ---------------- the export step ---------------------------------- *)
   Lemma export_sound st src root pfilts filt feats fl' cv :
     store_sound truth omap st ->
     scoped st ->
@@ -953,17 +1108,14 @@ Section ExportSound.
                        gather (omap src) idx = Some cv
     end ->
     export st src pfilts filt feats = Some fl' ->
-    file_sound truth (omap_ext (length st) (mask filt cv))
+    file_sound truth (omap_ext (length st) (fmask filt cv))
                (st ++ [Some fl']) (length st) fl' /\
-    f_n fl' = count_true filt /\ length (f_slots fl') = 10%nat /\
-    zlen cv = zlen filt /\
+    f_n fl' = zlen (fmask filt cv) /\ length (f_slots fl') = 10%nat /\
+    match filt with Some f => zlen cv = zlen f | None => True end /\
     (forall b, In b (f_basins fl') -> (b_target b < length st)%nat).
   Proof.
     intros Hst Hsc Hroot Hl10 Hcv H.
-    assert (Hsrc : (src < length st)%nat).
-    { unfold get_file in Hroot.
-      destruct (nth_error st src) eqn:E; [|discriminate].
-      apply nth_error_Some. congruence. }
+    assert (Hsrc : (src < length st)%nat) by exact (get_file_bound _ _ _ Hroot).
     destruct (Hst src root Hroot) as (HI & HB & HN).
     unfold export in H. rewrite Hroot in H. simpl opt_bind in H.
     set (hier := match pfilts with [] => false | _ => true end) in *.
@@ -972,7 +1124,6 @@ Section ExportSound.
     simpl opt_bind in H.
     set (view := fun d : list Z =>
                    if hier then gather d idx_root else Some d) in *.
-    (* the view of the source's origin events *)
     assert (Hview : view (omap src) = Some cv /\ zlen idx_root = zlen cv).
     { unfold view, hier in *. destruct pfilts as [|pf pfs].
       - destruct Hcv as [Hn ->]. inversion Eidx; subst. split; auto.
@@ -981,9 +1132,14 @@ Section ExportSound.
         inversion Eidx; subst. split; auto.
         symmetry; now apply (gather_zlen _ _ _ Hg). }
     destruct Hview as [Hview Hlen].
-    destruct (zlen idx_root =? zlen filt) eqn:Elen; simpl in H;
-      [|discriminate].
-    assert (Hcvlen : zlen cv = zlen filt) by lia.
+    destruct (match filt with
+              | Some f => zlen idx_root =? zlen f
+              | None => true
+              end) eqn:Elen; simpl in H; [|discriminate].
+    assert (Hcvlen : match filt with
+                     | Some f => zlen cv = zlen f
+                     | None => True
+                     end) by (destruct filt; [lia|exact I]).
     (* features *)
     match type of H with
     | opt_bind (all_some (map ?g ?names)) _ = _ =>
@@ -992,8 +1148,8 @@ Section ExportSound.
     end.
     simpl opt_bind in H.
     assert (Hinn : forall f d, In (f, d) innate ->
-                   gather (truth f) (mask filt cv) = Some d).
-    { assert (HF : Forall (fun fd => gather (truth (fst fd)) (mask filt cv)
+                   gather (truth f) (fmask filt cv) = Some d).
+    { assert (HF : Forall (fun fd => gather (truth (fst fd)) (fmask filt cv)
                                      = Some (snd fd)) innate).
       { eapply (all_some_map_Forall gi (fun _ => True));
           [ | | exact Einn].
@@ -1005,13 +1161,21 @@ Section ExportSound.
           destruct (view d0) as [v|] eqn:Ev; [|discriminate].
           simpl in Hg. inversion Hg; subst.
           pose proof (resolve_sound truth omap st src f' d0 Hst Er) as Ht.
-          apply mask_gather.
+          apply fmask_gather.
           unfold view in *. destruct hier.
           + rewrite (gather_gather _ _ _ Ht idx_root) in Ev.
             rewrite Hview in Ev. exact Ev.
           + inversion Ev; inversion Hview; subst. exact Ht.
         - apply Forall_forall. intros; exact I. }
       intros f d Hin. rewrite Forall_forall in HF. exact (HF (f, d) Hin). }
+    (* empty selection: nothing is written *)
+    destruct (empty_selection filt) eqn:Eempty.
+    { inversion H; subst; simpl.
+      assert (Hz : zlen (fmask filt cv) = 0).
+      { destruct filt as [f|]; simpl in *; [|discriminate].
+        rewrite mask_length_count by assumption. lia. }
+      repeat split; auto; try (intros; simpl in *; contradiction).
+      intros f d Ha; simpl in Ha; discriminate. }
     (* basinmap features copied with the default feature list *)
     match type of H with
     | opt_bind ?x _ = _ => destruct x as [slots0|] eqn:Eslots; [|discriminate]
@@ -1037,9 +1201,10 @@ Section ExportSound.
           pose proof (Hsc src root Hroot b Hb Ei) as Ht.
           destruct (b_slot b) as [k|].
           * destruct HB as [m0 [Hs Hg]]. rewrite Hs in Hd.
-            inversion Hd; subst. simpl. rewrite Nat2Z.id. auto.
+            inversion Hd; subst. simpl. rewrite Nat2Z.id.
+            repeat split; auto; lia.
           * inversion Hd; subst. simpl. rewrite Nat2Z.id.
-            repeat split; auto. now rewrite HB.
+            repeat split; auto; [lia|]. now rewrite HB.
       - apply Forall_forall. intros b Hb. now apply In_sorted_basins. }
     match type of H with
     | opt_bind (all_some (map ?g upstream)) _ = _ =>
@@ -1069,90 +1234,82 @@ Section ExportSound.
           [|discriminate]; set (ge := g) in *
     end.
     simpl opt_bind in H.
-    assert (Hbl : Forall (fun sb => good_sb st (mask filt cv) sb /\
-                                    (match sb with
-                                     | SBFile _ None _ _ => False
-                                     | _ => True
-                                     end)) blist).
+    assert (Hbl : Forall (good_sb st (fmask filt cv)) blist).
     { eapply (all_some_map_Forall ge (good_sb st cv)); [ | | exact Ebl].
       - intros sb sb' Hg He. unfold ge in He.
         destruct sb as [dd mm|t m nm fs];
-          [inversion He; subst; split; exact I|].
+          [inversion He; subst; exact I|].
         destruct Hg as (Hnm & Ht & Hv).
-        destruct (export_map_sound _ _ _ filt Hv Hcvlen) as [m' [E1 G1]].
-        rewrite E1 in He. simpl in He. inversion He; subst. simpl. auto.
+        unfold export_map_opt in He. destruct filt as [f|].
+        + destruct (export_map_sound _ _ _ f Hv Hcvlen) as [m' [E1 G1]].
+          rewrite E1 in He. simpl in He. inversion He; subst. simpl. auto.
+        + simpl in He. inversion He; subst. simpl. auto.
       - apply Forall_app; split; [assumption|]. constructor; [|constructor].
         exact Hself. }
     set (blist' := filter (fun sb => match sb with
                                      | SBInternal _ _ => false
                                      | _ => true
                                      end) blist) in *.
-    assert (Hbl' : Forall (fun sb => exists t m' fs,
-                             sb = SBFile t (Some m') None fs /\
+    assert (Hbl' : Forall (fun sb => exists t m fs,
+                             sb = SBFile t m None fs /\
                              (Z.to_nat t < length st)%nat /\
-                             gather (omap (Z.to_nat t)) m'
-                             = Some (mask filt cv)) blist').
+                             view_through (omap (Z.to_nat t)) m
+                             = Some (fmask filt cv)) blist').
     { apply Forall_forall. intros sb Hin. unfold blist' in Hin.
       apply filter_In in Hin as [Hin Hf]. rewrite Forall_forall in Hbl.
-      destruct (Hbl sb Hin) as [Hg Hm].
-      destruct sb as [dd mm|t [m'|] nm fs]; try discriminate; try contradiction.
-      destruct Hg as (-> & Ht & Hv). exists t, m', fs. auto. }
+      pose proof (Hbl sb Hin) as Hg.
+      destruct sb as [dd mm|t m nm fs]; try discriminate.
+      destruct Hg as (-> & Ht & Hv). exists t, m, fs. auto. }
     assert (Hnames : Forall name_ok blist').
     { apply Forall_forall. intros sb Hin. rewrite Forall_forall in Hbl'.
-      destruct (Hbl' sb Hin) as (t & m' & fs & -> & _). exact I. }
-    destruct (store_basins_written blist'
-                {| f_n := count_true filt; f_innate := innate;
-                   f_slots := slots0; f_basins := [] |} fl' Hs0 Hnames H)
-      as (Hfi & Hfn & Hfl & _ & bs & Hbs & HF2).
+      destruct (Hbl' sb Hin) as (t & m & fs & -> & _).
+      destruct m; exact I. }
+    match type of H with
+    | store_basins ?fl0 _ = _ =>
+        destruct (store_basins_written blist' fl0 fl' Hs0 Hnames H)
+          as (Hfi & Hfn & Hfl & _ & bs & Hbs & HF2)
+    end.
     simpl in Hfi, Hfn, Hbs.
     assert (Htargets : forall b, In b (f_basins fl') ->
                                  (b_target b < length st)%nat).
     { intros b Hb. rewrite Hbs in Hb.
       destruct (Forall2_In_r _ _ _ _ HF2 Hb) as [sb [Hsb [Hh Hk]]].
       rewrite Forall_forall in Hbl'.
-      destruct (Hbl' sb Hsb) as (t & m' & fs & -> & Ht & _).
+      destruct (Hbl' sb Hsb) as (t & m & fs & -> & Ht & _).
       simpl in Hk. destruct Hk as [_ ->]. exact Ht. }
+    assert (Hn' : f_n fl' = zlen (fmask filt cv)).
+    { rewrite Hfn. destruct filt as [f|]; simpl.
+      - symmetry. now apply mask_length_count.
+      - exact Hlen. }
     split; [|repeat split; auto].
     unfold file_sound. repeat split.
-    - (* stored features *)
-      intros f d Ha. rewrite Hfi in Ha. apply assoc_In in Ha.
+    - intros f d Ha. rewrite Hfi in Ha. apply assoc_In in Ha.
       unfold omap_ext. rewrite Nat.eqb_refl. now apply Hinn.
-    - (* basin definitions *)
-      intros b Hb Hi. rewrite Hbs in Hb.
+    - intros b Hb Hi. rewrite Hbs in Hb.
       destruct (Forall2_In_r _ _ _ _ HF2 Hb) as [sb [Hsb [Hh Hk]]].
       rewrite Forall_forall in Hbl'.
-      destruct (Hbl' sb Hsb) as (t & m' & fs & -> & Ht & Hg).
+      destruct (Hbl' sb Hsb) as (t & m & fs & -> & Ht & Hg).
       simpl in Hh, Hk. destruct Hk as [_ Htg].
-      destruct Hh as [k [Hk Hs]]. rewrite Hk.
-      exists m'; split; [assumption|].
-      unfold omap_ext. rewrite Nat.eqb_refl, Htg.
-      replace (Nat.eqb (Z.to_nat t) (length st)) with false
-        by (symmetry; apply Nat.eqb_neq; lia).
-      exact Hg.
-    - (* no internal basins are exported *)
-      intros b Hb Hi. rewrite Hbs in Hb.
+      assert (Eo : omap_ext (length st) (fmask filt cv) (b_target b)
+                   = omap (Z.to_nat t)).
+      { unfold omap_ext. rewrite Htg.
+        replace (Nat.eqb (Z.to_nat t) (length st)) with false
+          by (symmetry; apply Nat.eqb_neq; lia). reflexivity. }
+      rewrite Eo. unfold omap_ext at 1 2. rewrite Nat.eqb_refl.
+      destruct m as [m'|]; simpl in Hh, Hg.
+      + destruct Hh as [k [Hk Hs]]. rewrite Hk. exists m'; auto.
+      + rewrite Hh. inversion Hg; reflexivity.
+    - intros b Hb Hi. rewrite Hbs in Hb.
       destruct (Forall2_In_r _ _ _ _ HF2 Hb) as [sb [Hsb [Hh Hk]]].
       rewrite Forall_forall in Hbl'.
-      destruct (Hbl' sb Hsb) as (t & m' & fs & -> & _).
+      destruct (Hbl' sb Hsb) as (t & m & fs & -> & _).
       simpl in Hk. destruct Hk as [Hk _]. congruence.
   Qed.
 
-  Lemma get_file_app_old (st : store) x fid :
-    (fid < length st)%nat -> get_file (st ++ [x]) fid = get_file st fid.
-  Proof. intros H; unfold get_file. now rewrite nth_error_app1. Qed.
-
-  Lemma get_file_bound (st : store) fid fl :
-    get_file st fid = Some fl -> (fid < length st)%nat.
-  Proof.
-    unfold get_file; intros H.
-    destruct (nth_error st fid) eqn:E; [|discriminate].
-    apply nth_error_Some. congruence.
-  Qed.
-
-  (* The inductive step for pipelines of any length: a filtered export (from
-     a file or from a hierarchy child) maps a consistent store to a
-     consistent store, in which the new file stands for the filtered
-     origin events of its source. *)
+  (* The inductive step for pipelines of any length: an export (filtered or
+     not, also an empty selection, from a file or from a hierarchy child)
+     maps a consistent store to a consistent store, in which the new file
+     stands for the selected origin events of its source. *)
   Lemma export_store_sound st src root pfilts filt feats fl' cv :
     store_sound truth omap st ->
     scoped st ->
@@ -1164,7 +1321,7 @@ Section ExportSound.
                        gather (omap src) idx = Some cv
     end ->
     export st src pfilts filt feats = Some fl' ->
-    store_sound truth (omap_ext (length st) (mask filt cv))
+    store_sound truth (omap_ext (length st) (fmask filt cv))
                 (st ++ [Some fl']) /\
     scoped (st ++ [Some fl']).
   Proof.
@@ -1172,37 +1329,25 @@ Section ExportSound.
     destruct (export_sound st src root pfilts filt feats fl' cv
                            Hst Hsc Hroot Hl10 Hcv H)
       as (Hnew & _ & _ & _ & Htg).
-    assert (Hcase : forall fid fl, get_file (st ++ [Some fl']) fid = Some fl ->
-              (fid < length st)%nat /\ get_file st fid = Some fl \/
-              fid = length st /\ fl = fl').
-    { intros fid fl Hg. destruct (Nat.lt_ge_cases fid (length st)) as [Hlt|Hge].
-      - left. rewrite get_file_app_old in Hg by assumption. auto.
-      - right. pose proof (get_file_bound _ _ _ Hg) as Hb.
-        rewrite app_length in Hb; simpl in Hb.
-        assert (fid = length st) by lia. subst fid. split; [reflexivity|].
-        unfold get_file in Hg.
-        rewrite nth_error_app2, Nat.sub_diag in Hg by lia.
-        simpl in Hg. congruence. }
-    split.
-    - intros fid fl Hg. destruct (Hcase fid fl Hg) as [[Hlt Hold]|[-> ->]].
-      + destruct (Hst fid fl Hold) as (HI & HB & HN).
-        assert (Eo : omap_ext (length st) (mask filt cv) fid = omap fid).
-        { unfold omap_ext.
-          replace (Nat.eqb fid (length st)) with false
-            by (symmetry; apply Nat.eqb_neq; lia). reflexivity. }
-        unfold file_sound. rewrite Eo. repeat split.
-        * exact HI.
-        * intros b Hb Hi. specialize (HB b Hb Hi).
-          pose proof (Hsc fid fl Hold b Hb Hi) as Ht.
-          unfold omap_ext.
-          replace (Nat.eqb (b_target b) (length st)) with false
-            by (symmetry; apply Nat.eqb_neq; lia). exact HB.
-        * exact HN.
-      + exact Hnew.
-    - intros fid fl Hg b Hb Hi. rewrite app_length; simpl.
-      destruct (Hcase fid fl Hg) as [[Hlt Hold]|[-> ->]].
-      + pose proof (Hsc fid fl Hold b Hb Hi). lia.
-      + pose proof (Htg b Hb). lia.
+    apply store_sound_snoc; auto.
+  Qed.
+
+  (* ... and so does writing a file by hand with correct requests *)
+  Lemma write_store_sound st n innate sbs fl' new :
+    store_sound truth omap st ->
+    scoped st ->
+    (forall f d, assoc f innate = Some d ->
+                 gather (truth f) new = Some d) ->
+    Forall (request_ok st new) sbs ->
+    store_basins {| f_n := n; f_innate := innate; f_slots := empty_slots;
+                    f_basins := [] |} sbs = Some fl' ->
+    store_sound truth (omap_ext (length st) new) (st ++ [Some fl']) /\
+    scoped (st ++ [Some fl']).
+  Proof.
+    intros Hst Hsc Hinn Hreq H.
+    destruct (write_file_sound st n innate sbs fl' new Hinn Hreq H)
+      as [Hnew Htg].
+    apply store_sound_snoc; auto.
   Qed.
 End ExportSound.
 
@@ -1629,16 +1774,16 @@ Qed.
 
 (* indexing, iteration and np.array() of a mapped feature (scalar, image,
    ragged) all show origin[basinmap] *)
-Lemma proxy_access_agree {A} (feat : list A) bmap is_scalar mapped :
+Lemma proxy_access_agree {A} (feat : list A) bmap is_scalar cast mapped :
   gather feat bmap = Some mapped ->
   forall cache ac,
     cache_ok is_scalar mapped cache ->
-    snd (proxy_access A feat bmap is_scalar cache ac)
-    = direct_access mapped ac /\
+    snd (proxy_access A feat bmap is_scalar cast cache ac)
+    = direct_access cast mapped ac /\
     cache_ok is_scalar mapped
-             (fst (proxy_access A feat bmap is_scalar cache ac)).
+             (fst (proxy_access A feat bmap is_scalar cast cache ac)).
 Proof.
-  intros H cache ac Hc. destruct ac as [ix| |].
+  intros H cache ac Hc. destruct ac as [ix| | |].
   - exact (proxy_routes_agree feat bmap is_scalar mapped H cache ix Hc).
   - unfold proxy_access, direct_access.
     assert (Hlen : (length mapped < S (length bmap))%nat)
@@ -1654,13 +1799,408 @@ Proof.
     + destruct is_scalar eqn:Es.
       * rewrite H. simpl. split; [reflexivity|]. right; auto.
       * rewrite loop_gather, H. simpl. auto.
+  - (* a cast of the result never reaches the cache *)
+    unfold proxy_access, direct_access, proxy_array. destruct cache as [c|].
+    + rewrite loop_gather, H. simpl. auto.
+    + destruct is_scalar eqn:Es.
+      * rewrite H. simpl. split; [reflexivity|]. right; auto.
+      * rewrite loop_gather, H. simpl. auto.
 Qed.
 
 Example ex_iter_array :
   let feat := [10; 11; 12; 13] in
   let bmap := [3; 3; 0; 2] in
-  snd (proxy_access Z feat bmap false None AIter) = RMany [13; 13; 10; 12] /\
-  snd (proxy_access Z feat bmap false None AArray) = RMany [13; 13; 10; 12] /\
-  snd (proxy_access Z feat bmap true (Some [13; 13; 10; 12]) AIter)
+  snd (proxy_access Z feat bmap false trunc8 None AIter) = RMany [13; 13; 10; 12] /\
+  snd (proxy_access Z feat bmap false trunc8 None AArray) = RMany [13; 13; 10; 12] /\
+  snd (proxy_access Z feat bmap true trunc8 (Some [13; 13; 10; 12]) AIter)
   = RMany [13; 13; 10; 12].
 Proof. vm_compute. repeat split. Qed.
+
+(* ------------------------------------------------------------------ *)
+(* the fuel of lookup is never exhausted on acyclic stores             *)
+(* ------------------------------------------------------------------ *)
+(* internal basins always list their features (store_basin demands it) *)
+Definition internal_listed (st : store) : Prop :=
+  forall fid fl, get_file st fid = Some fl ->
+    forall b, In b (f_basins fl) -> b_internal b = true -> b_feats b <> None.
+
+Lemma provides_mono st b f fu :
+  (b_feats b = None -> has_feat fu st (b_target b) f
+                       = has_feat (S fu) st (b_target b) f) ->
+  provides fu st b f = provides (S fu) st b f.
+Proof. unfold provides. destruct (b_feats b); auto. Qed.
+
+Lemma fuel_mono st :
+  scoped st -> internal_listed st ->
+  forall fu fid f, (fid < fu)%nat ->
+    has_feat fu st fid f = has_feat (S fu) st fid f /\
+    lookup fu st fid f = lookup (S fu) st fid f.
+Proof.
+  intros Hsc Hint fu; induction fu as [|fu IH]; intros fid f Hf; [lia|].
+  assert (Hprov : forall fl b, get_file st fid = Some fl ->
+                    In b (f_basins fl) ->
+                    provides fu st b f = provides (S fu) st b f).
+  { intros fl b Hg Hb. apply provides_mono. intros Hn.
+    destruct (b_internal b) eqn:Ei.
+    - exfalso. exact (Hint fid fl Hg b Hb Ei Hn).
+    - pose proof (Hsc fid fl Hg b Hb Ei). apply IH. lia. }
+  split.
+  - rewrite (has_feat_S fu), (has_feat_S (S fu)).
+    destruct (get_file st fid) as [fl|] eqn:Eg; [|reflexivity].
+    destruct (assoc f (f_innate fl)); [reflexivity|].
+    apply existsb_ext. intros b Hb. now apply (Hprov fl).
+  - rewrite (lookup_S fu), (lookup_S (S fu)).
+    destruct (get_file st fid) as [fl|] eqn:Eg; [|reflexivity].
+    destruct (assoc f (f_innate fl)); [reflexivity|].
+    apply try_basins_ext. intros b Hb. apply In_sorted_basins in Hb.
+    unfold attempt_fn. rewrite <- (Hprov fl b eq_refl Hb).
+    destruct (b_internal b) eqn:Ei; [reflexivity|].
+    pose proof (Hsc fid fl Eg b Hb Ei).
+    replace (lookup (S fu) st (b_target b) f)
+      with (lookup fu st (b_target b) f) by (apply IH; lia).
+    reflexivity.
+Qed.
+
+(* any two amounts of fuel above the file's position give the same answer:
+   in particular [fuel_of st] is enough for every file of the store *)
+Lemma fuel_irrelevant st :
+  scoped st -> internal_listed st ->
+  forall fid f fu1 fu2, (fid < fu1)%nat -> (fid < fu2)%nat ->
+    lookup fu1 st fid f = lookup fu2 st fid f /\
+    has_feat fu1 st fid f = has_feat fu2 st fid f.
+Proof.
+  intros Hsc Hint fid f.
+  assert (Hb : forall d, lookup (S fid + d) st fid f = lookup (S fid) st fid f
+                         /\ has_feat (S fid + d) st fid f
+                            = has_feat (S fid) st fid f).
+  { induction d as [|d [IH1 IH2]]; [rewrite Nat.add_0_r; auto|].
+    replace (S fid + S d)%nat with (S (S fid + d)) by lia.
+    destruct (fuel_mono st Hsc Hint (S fid + d) fid f ltac:(lia)) as [E1 E2].
+    rewrite <- E1, <- E2. auto. }
+  intros fu1 fu2 H1 H2.
+  destruct (Hb (fu1 - S fid)%nat) as [A1 A2].
+  destruct (Hb (fu2 - S fid)%nat) as [B1 B2].
+  replace (S fid + (fu1 - S fid))%nat with fu1 in * by lia.
+  replace (S fid + (fu2 - S fid))%nat with fu2 in * by lia.
+  split; congruence.
+Qed.
+
+(* ------------------------------------------------------------------ *)
+(* completeness: a provided feature IS returned                        *)
+(* ------------------------------------------------------------------ *)
+Lemma first_some_complete {B C} (g : B -> option C) l x c :
+  In x l -> g x = Some c -> exists c', first_some g l = Some c'.
+Proof.
+  induction l as [|y l IH]; simpl; [contradiction|].
+  intros [->|Hin] Hg.
+  - rewrite Hg. eauto.
+  - destruct (g y); eauto.
+Qed.
+
+Lemma try_basins_complete att bs b o :
+  In b bs -> att b = Some o -> exists o', try_basins att bs = Some o'.
+Proof.
+  intros Hb Ha. unfold try_basins.
+  destruct (first_some att (filter b_internal bs)); eauto.
+  destruct (first_some att (filter (fun b0 => negb (b_internal b0)) bs));
+    eauto.
+  exact (first_some_complete att bs b o Hb Ha).
+Qed.
+
+Lemma try_basins_In att bs o :
+  try_basins att bs = Some o -> exists b, In b bs /\ att b = Some o.
+Proof.
+  unfold try_basins. intros H.
+  destruct (first_some att (filter b_internal bs)) as [o1|] eqn:E1.
+  - inversion H; subst. destruct (first_some_In _ _ _ E1) as [b [Hb Ha]].
+    apply filter_In in Hb as [Hb _]. eauto.
+  - destruct (first_some att (filter (fun b0 => negb (b_internal b0)) bs))
+      as [o2|] eqn:E2.
+    + inversion H; subst. destruct (first_some_In _ _ _ E2) as [b [Hb Ha]].
+      apply filter_In in Hb as [Hb _]. eauto.
+    + destruct (first_some_In _ _ _ H) as [b [Hb Ha]]. eauto.
+Qed.
+
+Lemma In_insert_sorted_conv b x l :
+  x = b \/ In x l -> In x (insert_sorted b l).
+Proof.
+  induction l as [|y l IH]; simpl.
+  - intros [->|[]]; auto.
+  - destruct (bkey b <? bkey y); simpl.
+    + intros [->|[->|H]]; auto.
+    + intros [->|[->|H]]; auto.
+Qed.
+
+Lemma In_sorted_basins_conv x l : In x l -> In x (sorted_basins l).
+Proof.
+  induction l as [|y l IH]; simpl; [auto|].
+  intros [->|H]; apply In_insert_sorted_conv; auto.
+Qed.
+
+Lemma gather_same_length {A B} (l1 : list A) (l2 : list B) m r :
+  gather l1 m = Some r -> length l1 = length l2 ->
+  exists r2, gather l2 m = Some r2.
+Proof.
+  intros H Hl. revert r H; induction m as [|j m IH]; intros r H; simpl in *.
+  - eauto.
+  - destruct (nthz l1 j) as [a|] eqn:Ej; [|discriminate].
+    destruct (gather l1 m) as [t|] eqn:Et; [|discriminate].
+    destruct (IH t eq_refl) as [t2 Ht2]. rewrite Ht2.
+    apply nthz_some_lt in Ej.
+    destruct (nthz_lt_some l2 j) as [b Hb];
+      [unfold zlen in *; lia|]. rewrite Hb. eauto.
+Qed.
+
+Lemma lookup_has_feat st fu fid f o :
+  lookup fu st fid f = Some o -> has_feat fu st fid f = true.
+Proof.
+  destruct fu as [|fu]; [discriminate|].
+  rewrite lookup_S, has_feat_S.
+  destruct (get_file st fid) as [fl|]; [|discriminate].
+  destruct (assoc f (f_innate fl)); [reflexivity|].
+  intros H. apply try_basins_In in H as [b [Hb Ha]].
+  apply In_sorted_basins in Hb. apply existsb_exists. exists b; split; auto.
+  unfold attempt_fn in Ha. destruct (provides fu st b f); [reflexivity|].
+  discriminate.
+Qed.
+
+Section Complete.
+  Variable truth : Z -> list Z.
+  Variable omap : nat -> list Z.
+
+  (* in a consistent store whatever a basin hands out can be read *)
+  Lemma attempt_materializes st fid fl fu f b o :
+    store_sound truth omap st ->
+    get_file st fid = Some fl ->
+    In b (f_basins fl) ->
+    attempt_fn fu st fl f b = Some o ->
+    exists d, materialize o = Some d.
+  Proof.
+    intros Hst Hg Hb Ha. destruct (Hst fid fl Hg) as (HI & HB & HN).
+    unfold attempt_fn in Ha.
+    destruct (provides fu st b f); [|discriminate].
+    destruct (b_internal b) eqn:Ei.
+    - destruct (HN b Hb Ei) as (k & m & rows & Hk & Hs & Hr & Hd).
+      destruct (assoc f (b_int b)) as [d1|] eqn:Ed; [|discriminate].
+      rewrite Hk, Hs in Ha. inversion Ha; subst. simpl.
+      apply (gather_same_length rows d1 m _ Hr).
+      symmetry. exact (gather_length _ _ _ (Hd f d1 Ed)).
+    - specialize (HB b Hb Ei).
+      destruct (lookup fu st (b_target b) f) as [o0|] eqn:El; [|discriminate].
+      destruct (materialize o0) as [d1|] eqn:Em; [|discriminate].
+      pose proof (lookup_sound truth omap st Hst _ _ _ _ _ El Em) as Ht.
+      destruct (b_slot b) as [k|].
+      + destruct HB as [m [Hs Hgm]]. rewrite Hs in Ha.
+        inversion Ha; subst. simpl.
+        apply (gather_same_length (omap (b_target b)) d1 m _ Hgm).
+        symmetry. exact (gather_length _ _ _ Ht).
+      + inversion Ha; subst. simpl. eauto.
+  Qed.
+
+  Lemma lookup_complete st fid fl fu f b o :
+    store_sound truth omap st ->
+    get_file st fid = Some fl ->
+    In b (f_basins fl) ->
+    attempt_fn fu st fl f b = Some o ->
+    exists o' d, lookup (S fu) st fid f = Some o' /\
+                 materialize o' = Some d /\
+                 gather (truth f) (omap fid) = Some d.
+  Proof.
+    intros Hst Hg Hb Ha. rewrite lookup_S, Hg.
+    destruct (assoc f (f_innate fl)) as [d0|] eqn:Ei.
+    - exists (ODirect d0), d0. repeat split.
+      destruct (Hst fid fl Hg) as (HI & _). now apply HI.
+    - destruct (try_basins_complete _ _ b o
+                  (In_sorted_basins_conv _ _ Hb) Ha) as [o' Ho'].
+      destruct (try_basins_In _ _ _ Ho') as [b' [Hb' Ha']].
+      apply In_sorted_basins in Hb'.
+      destruct (attempt_materializes st fid fl fu f b' o' Hst Hg Hb' Ha')
+        as [d Hd].
+      exists o', d. repeat split; auto.
+      apply (lookup_sound truth omap st Hst (S fu) fid f o' d); auto.
+      rewrite lookup_S, Hg, Ei. exact Ho'.
+  Qed.
+
+  (* Completeness for file basins: if a basin of the file lists the feature
+     (or lists nothing, i.e. offers everything) and the basin's file can
+     read it, then the file returns it - and it is the origin's feature at
+     the file's events.  The fuel of [resolve] is enough. *)
+  Lemma resolve_complete_file st fid fl b f dt :
+    store_sound truth omap st ->
+    scoped st -> internal_listed st ->
+    get_file st fid = Some fl ->
+    In b (f_basins fl) ->
+    b_internal b = false ->
+    match b_feats b with Some l => zmem f l = true | None => True end ->
+    resolve st (b_target b) f = Some dt ->
+    exists d, resolve st fid f = Some d /\
+              gather (truth f) (omap fid) = Some d.
+  Proof.
+    intros Hst Hsc Hint Hg Hb Hi Hf Hr.
+    pose proof (get_file_bound st fid fl Hg) as Hfid.
+    pose proof (Hsc fid fl Hg b Hb Hi) as Ht.
+    unfold resolve, fuel_of in Hr.
+    destruct (lookup (S (length st)) st (b_target b) f) as [ot|] eqn:El;
+      [|discriminate].
+    assert (El' : lookup (length st) st (b_target b) f = Some ot).
+    { rewrite <- El.
+      apply (fuel_irrelevant st Hsc Hint (b_target b) f); lia. }
+    destruct (Hst fid fl Hg) as (_ & HB & _). specialize (HB b Hb Hi).
+    assert (Ha : exists o, attempt_fn (length st) st fl f b = Some o).
+    { unfold attempt_fn.
+      assert (Hp : provides (length st) st b f = true).
+      { unfold provides. destruct (b_feats b); [assumption|].
+        exact (lookup_has_feat _ _ _ _ _ El'). }
+      rewrite Hp, Hi, El', Hr.
+      destruct (b_slot b) as [k|]; [|eauto].
+      destruct HB as [m [Hs _]]. rewrite Hs. eauto. }
+    destruct Ha as [o Ha].
+    destruct (lookup_complete st fid fl (length st) f b o Hst Hg Hb Ha)
+      as (o' & d & E1 & E2 & E3).
+    exists d. unfold resolve, fuel_of. rewrite E1. auto.
+  Qed.
+
+  (* ... and for internal basins *)
+  Lemma resolve_complete_internal st fid fl b f l di :
+    store_sound truth omap st ->
+    get_file st fid = Some fl ->
+    In b (f_basins fl) ->
+    b_internal b = true ->
+    b_feats b = Some l -> zmem f l = true ->
+    assoc f (b_int b) = Some di ->
+    exists d, resolve st fid f = Some d /\
+              gather (truth f) (omap fid) = Some d.
+  Proof.
+    intros Hst Hg Hb Hi Hfe Hz Hd.
+    destruct (Hst fid fl Hg) as (_ & _ & HN).
+    destruct (HN b Hb Hi) as (k & m & rows & Hk & Hs & _).
+    assert (Ha : attempt_fn (length st) st fl f b = Some (OProxy di m)).
+    { unfold attempt_fn, provides. now rewrite Hfe, Hz, Hi, Hd, Hk, Hs. }
+    destruct (lookup_complete st fid fl (length st) f b _ Hst Hg Hb Ha)
+      as (o' & d & E1 & E2 & E3).
+    exists d. unfold resolve, fuel_of. rewrite E1. auto.
+  Qed.
+End Complete.
+
+(* ------------------------------------------------------------------ *)
+(* non-vacuity: a consistent store with a mapped basin (repeats, not   *)
+(* monotone), an internal basin and a filtered export of the referrer  *)
+(* ------------------------------------------------------------------ *)
+Definition ex_truth (f : Z) : list Z :=
+  if f =? 1 then [10; 11; 12] else if f =? 2 then [70; 71; 72] else [].
+
+Definition ex_f0 : file :=
+  {| f_n := 3; f_innate := [(1, [10; 11; 12]); (2, [70; 71; 72])];
+     f_slots := empty_slots; f_basins := [] |}.
+
+Definition ex_sbs : list sbasin :=
+  [SBFile 0 (Some [2; 2; 0; 1]) None (Some [1]);
+   SBInternal [(2, [72; 70; 71])] [0; 0; 1; 2]].
+
+Definition ex_init1 : file :=
+  {| f_n := 4; f_innate := []; f_slots := empty_slots; f_basins := [] |}.
+
+Definition ex_f1 : file :=
+  Eval vm_compute in
+    match store_basins ex_init1 ex_sbs with Some x => x | None => ex_f0 end.
+
+Definition ex_st2 : store := ([] ++ [Some ex_f0]) ++ [Some ex_f1].
+
+Definition ex_f2 : file :=
+  Eval vm_compute in
+    match export ex_st2 1 [] (Some [true; false; true; true]) (Some [])
+    with Some x => x | None => ex_f0 end.
+
+Definition ex_omap : nat -> list Z :=
+  omap_ext (omap_ext (omap_ext (fun _ => []) 0 [0; 1; 2]) 1 [2; 2; 0; 1])
+           2 [2; 0; 1].
+
+Example ex_store_sound_inhabited :
+  run_steps [SWrite 3 [(1, [10; 11; 12]); (2, [70; 71; 72])] [];
+             SWrite 4 [] ex_sbs;
+             SExport 1 [] (Some [true; false; true; true]) (Some [])]
+  = ex_st2 ++ [Some ex_f2] /\
+  store_sound ex_truth ex_omap (ex_st2 ++ [Some ex_f2]) /\
+  scoped (ex_st2 ++ [Some ex_f2]) /\
+  internal_listed (ex_st2 ++ [Some ex_f2]) /\
+  resolve (ex_st2 ++ [Some ex_f2]) 2 1 = Some [12; 10; 11] /\
+  resolve (ex_st2 ++ [Some ex_f2]) 2 2 = Some [72; 70; 71].
+Proof.
+  split; [vm_compute; reflexivity|].
+  assert (Hinn : forall f d,
+             assoc f [(1, [10; 11; 12]); (2, [70; 71; 72])] = Some d ->
+             gather (ex_truth f) [0; 1; 2] = Some d).
+  { intros f d H. simpl in H. unfold ex_truth.
+    destruct (f =? 1) eqn:E1; [inversion H; reflexivity|].
+    destruct (f =? 2) eqn:E2; [inversion H; reflexivity|discriminate]. }
+  destruct (store_sound_nil ex_truth (fun _ => [])) as [S0 C0].
+  destruct (write_store_sound ex_truth (fun _ => []) [] 3 _ [] ex_f0
+                              [0; 1; 2] S0 C0 Hinn (Forall_nil _) eq_refl)
+    as [S1 C1].
+  set (om1 := omap_ext (fun _ => []) (length (@nil (option file))) [0; 1; 2])
+    in *.
+  assert (Hreq : Forall (request_ok ex_truth om1 ([] ++ [Some ex_f0])
+                                    [2; 2; 0; 1]) ex_sbs).
+  { repeat constructor; simpl; auto.
+    exists [2; 0; 1]. split; [reflexivity|].
+    intros f d H. simpl in H. unfold ex_truth.
+    destruct (f =? 2) eqn:E2; [|discriminate].
+    assert (f = 2) by lia. subst. inversion H. reflexivity. }
+  assert (E1 : store_basins ex_init1 ex_sbs = Some ex_f1)
+    by (vm_compute; reflexivity).
+  destruct (write_store_sound ex_truth om1 ([] ++ [Some ex_f0]) 4 [] ex_sbs
+                              ex_f1 [2; 2; 0; 1] S1 C1
+                              ltac:(intros f d H; discriminate) Hreq E1)
+    as [S2 C2].
+  set (om2 := omap_ext om1 (length ([] ++ [Some ex_f0])) [2; 2; 0; 1]) in *.
+  assert (E2 : export ex_st2 1 [] (Some [true; false; true; true]) (Some [])
+               = Some ex_f2) by (vm_compute; reflexivity).
+  destruct (export_store_sound ex_truth om2 ex_st2 1 ex_f1 []
+              (Some [true; false; true; true]) (Some []) ex_f2 [2; 2; 0; 1]
+              S2 C2 eq_refl eq_refl (conj eq_refl eq_refl) E2) as [S3 C3].
+  split; [exact S3|]. split; [exact C3|]. split.
+  - intros fid fl Hg b Hb Hi.
+    pose proof (get_file_bound _ _ _ Hg) as Hlt. simpl in Hlt.
+    destruct fid as [|[|[|fid]]]; [ | | |lia];
+      vm_compute in Hg; inversion Hg; subst; simpl in Hb;
+      repeat (destruct Hb as [<-|Hb]); try contradiction;
+      simpl in *; discriminate.
+  - split; vm_compute; reflexivity.
+Qed.
+
+(* ------------------------------------------------------------------ *)
+(* referrer and origin moved together                                  *)
+(* ------------------------------------------------------------------ *)
+(* The writer stores the absolute path and the path relative to the
+   referrer's directory.  If the tree is moved (the same datasets live at
+   the new prefix, nothing is left at the old absolute path), the relative
+   entry leads to the same dataset. *)
+Lemma moved_together (fs fs' : fsys) ok (dir dir' rel : list Z) id :
+  fs (dir ++ rel) = Some id -> ok id = true ->
+  fs' (dir' ++ rel) = fs (dir ++ rel) ->
+  fs' (dir ++ rel) = None ->
+  find_basin fs ok dir [LAbs (dir ++ rel); LRel rel]
+  = Some (0, dir ++ rel) /\
+  find_basin fs' ok dir' [LAbs (dir ++ rel); LRel rel]
+  = Some (1, dir' ++ rel) /\
+  fs' (dir' ++ rel) = Some id.
+Proof.
+  intros H1 Hok Hm Hg. repeat split.
+  - simpl. now rewrite H1, Hok.
+  - simpl. rewrite Hg, Hm, H1, Hok. reflexivity.
+  - congruence.
+Qed.
+
+(* a dataset with another identifier at the old location is skipped *)
+Lemma moved_together_other_file (fs' : fsys) ok (dir dir' rel : list Z)
+      id other :
+  fs' (dir ++ rel) = Some other -> ok other = false ->
+  fs' (dir' ++ rel) = Some id -> ok id = true ->
+  find_basin fs' ok dir' [LAbs (dir ++ rel); LRel rel]
+  = Some (1, dir' ++ rel).
+Proof.
+  intros H1 H2 H3 H4. simpl. now rewrite H1, H2, H3, H4.
+Qed.
+
+Example ex_moved : run_find false = [0] /\ run_find true = [1].
+Proof. vm_compute. split; reflexivity. Qed.
